@@ -167,6 +167,7 @@ class FnAnalysis:
         self.env = {}
         self.fresh_slots = set()
         self.local_fns = {}
+        self.callables = {}        # local name -> [ast.Lambda | ast.Attribute (bound method)] it may hold
 
     # ------------------------------------------------------------------ setup
     def run(self):
@@ -220,6 +221,10 @@ class FnAnalysis:
             self.stmt(st)
 
     def stmt(self, st):
+        if isinstance(st, ast.Assign) and len(st.targets) == 1 and isinstance(st.targets[0], ast.Name) and (
+                isinstance(st.value, ast.Lambda) or (isinstance(st.value, ast.Attribute) and st.value.attr in self.an.tt_methods and not st.value.attr.startswith('_'))):
+            # a callable value bound to a local name (`f = lambda v: v`, `f = operator.dot`): remember every candidate (the branches of an if may bind different ones)
+            self.callables.setdefault(st.targets[0].id, []).append(st.value)
         if isinstance(st, ast.Assign):
             v = self.ev(st.value)
             for t in st.targets:
@@ -543,6 +548,23 @@ class FnAnalysis:
             name = f.id
             if name in self.local_fns:
                 return self.inline_local(self.local_fns[name], args, kws, e)
+            if name in self.callables:
+                res = None
+                for cand in self.callables[name]:
+                    if isinstance(cand, ast.Lambda):
+                        saved = self.env
+                        self.env = dict(saved)
+                        for p_, a_ in zip([a.arg for a in cand.args.args], args):
+                            self.env[p_] = a_
+                        for k_, v_ in kws.items():
+                            self.env[k_] = v_
+                        r_ = self.ev(cand.body)
+                        self.env = saved
+                    else:
+                        r_ = self.e_Call(ast.copy_location(ast.Call(func=cand, args=e.args, keywords=e.keywords), e))
+                    res = r_ if res is None else (res | r_)
+                self.an.resolved_calls += 1
+                return res if res is not None else FRESH
             r = self.repo.resolve_name(self.mod, name)
             if r is not None:
                 self.an.resolved_calls += 1
